@@ -117,7 +117,9 @@ def check_shape(t, shape, rot=0, only=None, extras=True, kind="node"):
         return
     idm = tree.IdMap(nodes)
     # custom functions, options, indent: verbatim
-    namef = lambda nd: "id%d" % idm(nd)  # noqa
+    # identifiers are the user's business: whatever nodenamefunc returns (quotes, backslashes, blanks) appears verbatim
+    nm = lambda v: ("id%d", 'i"d%d', "i\\d%d", "i d%d", "id%d")[v % 5] % v  # noqa
+    namef = lambda nd: nm(idm(nd))  # noqa
     # an empty string is a legal result (a node declared by its identifier only) and must appear verbatim
     nodef = lambda nd: ('("%s")' % nd.name) if idm(nd) % 3 else ""  # noqa
     edgef = lambda a, b: ("--%d-->" % idm(b) if idm(b) % 2 else "---") if idm(b) % 3 else ""  # noqa
@@ -129,8 +131,8 @@ def check_shape(t, shape, rot=0, only=None, extras=True, kind="node"):
             lines = list(e)
             ind = " " * indent
             declared, edges, _ = reference(m, start, (), (), None)
-            exp = ["flowchart LR"] + [ind + o for o in options] + [ind + "id%d" % v + (('("%s")' % names[v]) if v % 3 else "") for v in declared]
-            exp_edges = [ind + "id%d" % p + (("--%d-->" % c if c % 2 else "---") if c % 3 else "") + "id%d" % c for p, c in edges]
+            exp = ["flowchart LR"] + [ind + o for o in options] + [ind + nm(v) + (('("%s")' % names[v]) if v % 3 else "") for v in declared]
+            exp_edges = [ind + nm(p) + (("--%d-->" % c if c % 2 else "---") if c % 3 else "") + nm(c) for p, c in edges]
             t.c["evaluations"] += 1
             t.c["custom_function_exports"] += 1
             if lines[: len(exp)] != exp or sorted(lines[len(exp):]) != sorted(exp_edges):
@@ -155,8 +157,8 @@ def check_shape(t, shape, rot=0, only=None, extras=True, kind="node"):
             except RuntimeError as exc:
                 lines = ["<raised: %s>" % exc]
             declared, edges, _ = reference(m, 0, (), (hid,), None)
-            exp = ["flowchart LR"] + [" " + o for o in options] + [" id%d" % v + (('("%s")' % names[v]) if v % 3 else "") for v in declared]
-            exp_edges = [" id%d" % p + (("--%d-->" % c if c % 2 else "---") if c % 3 else "") + "id%d" % c for p, c in edges]
+            exp = ["flowchart LR"] + [" " + o for o in options] + [" " + nm(v) + (('("%s")' % names[v]) if v % 3 else "") for v in declared]
+            exp_edges = [" " + nm(p) + (("--%d-->" % c if c % 2 else "---") if c % 3 else "") + nm(c) for p, c in edges]
             t.c["evaluations"] += 1
             t.c["custom_function_exports"] += 1
             if lines[: len(exp)] != exp or sorted(lines[len(exp):]) != sorted(exp_edges):
@@ -171,8 +173,8 @@ def check_shape(t, shape, rot=0, only=None, extras=True, kind="node"):
         lines = list(e)
         ind = " " * ind_n
         declared, edges, _ = reference(m, 0, (), (), None)
-        exp = ["graph TD"] + [ind + o for o in odd_options] + [ind + "id%d" % v + '["%s\nsecond line"]' % names[v] for v in declared]
-        exp_edges = [ind + "id%d" % p + "-- x\ny -->" + "id%d" % c for p, c in edges]
+        exp = ["graph TD"] + [ind + o for o in odd_options] + [ind + nm(v) + '["%s\nsecond line"]' % names[v] for v in declared]
+        exp_edges = [ind + nm(p) + "-- x\ny -->" + nm(c) for p, c in edges]
         t.c["evaluations"] += 1
         t.c["custom_function_exports"] += 1
         if lines[: len(exp)] != exp or sorted(lines[len(exp):]) != sorted(exp_edges):
@@ -357,7 +359,7 @@ def run(tier):
     jobs = [(MOD, "job", {"items": [it], "extras": True}) for it in items[::-1]]
     if tier == "thorough":
         jobs += [(MOD, "job", {"items": [(s, k % 9)], "extras": False, "maxk": 2}) for k, s in enumerate(tree.plane_trees(nmax + 1))]
-    core.run_pool(jobs + [("mc.capacity", "job", {"pid": "C13"})], 0, into=t)
+    core.run_pool(jobs + [("mc.capacity", "job", {"pid": "C13"}), ("mc.positional", "job", {"pid": "C13"})], 0, into=t)
     core.run_pool([(MOD, "job", {"items": c, "extras": False}) for c in core.chunks([(s, 1) for s in tree.shapes_upto(3)], core.NPROC)], 1, into=t)
     cov = {
         "states": t.c["states"], "transitions": t.c["evaluations"], "traces_validated_against_impl": t.c["evaluations"],
@@ -370,5 +372,5 @@ def run(tier):
         "bounds": {"max_nodes": nmax, "inputs": len(items)},
     }
     return {"tally": t, "coverage": cov,
-            "guards": ("capacity_checks", "nontrivial", "custom_function_exports", "history_runs", "stopped_child_of_declared_parent"),
+            "guards": ("positional_calls", "capacity_checks", "nontrivial", "custom_function_exports", "history_runs", "stopped_child_of_declared_parent"),
             "assumptions": ["bounded sizes and name alphabet", "edge order is not fixed by the statement: edges are compared as a multiset"]}
